@@ -10,3 +10,8 @@ print("corpus models:", len(repo.corpus(include_big=True)))
 os.makedirs(os.path.join(VERIF, "evidence"), exist_ok=True)
 os.makedirs(os.path.join(VERIF, "replays"), exist_ok=True)
 sb = kernel.Sandbox(); print("sandbox base:", os.path.dirname(sb.root)); sb.cleanup()
+import subprocess
+rc = subprocess.call([sys.executable, os.path.join(VERIF, "bin", "kernel_selftest.py")],
+                     env=dict(os.environ, PYTHONHASHSEED="0"))
+if rc != 0:
+    sys.exit("kernel self-test failed")
